@@ -41,7 +41,14 @@ def leaf(n):
 
         sc = n.get("scale", 0)
         vals = [decimal.Decimal(1).scaleb(-sc), decimal.Decimal(-15).scaleb(-sc), decimal.Decimal(0)]
-        raw = [b"\x00" * n["size"], b"\x7f" * n["size"]] if k == "fixed" else [b"\x01", b""]
+        p = n.get("precision")
+        if isinstance(p, int) and p >= 3:
+            # the widest coefficients the declared precision allows (beyond the 28 digits of the default decimal context when p > 28)
+            digits = ("1234567890" * 8)[:p]
+            vals += [decimal.Decimal((0, tuple(map(int, digits)), -sc)), decimal.Decimal((1, tuple([9] * p), -sc))]
+        raw = [b"\x00" * n["size"]] if k == "fixed" else [b"\x01"]  # (b"" is not a two's-complement number: kept out)
+        if k == "fixed" and int.from_bytes(b"\x7f" * n["size"], "big") < 10 ** (n.get("precision") or 0):
+            raw.append(b"\x7f" * n["size"])  # only where the declared precision can hold it
         return vals + raw
     if n.get("logical") == "date" and k == "int":
         import datetime
@@ -208,8 +215,8 @@ def variants(node, defs, k, hints=True, in_union=False, stack=(), big=True):
             if len(names) >= 2:
                 out.append(({kk: b[kk] for kk in reversed(names)}, 1))
             dflt = [f["name"] for f in n["fields"] if "default" in f or accepts_null(f["type"], defs)]
-            if len(dflt) >= 2 and k >= 2:
-                out.append(({kk: vv for kk, vv in b.items() if kk not in dflt}, 2))
+            if len(dflt) >= 2:
+                out.append(({kk: vv for kk, vv in b.items() if kk not in dflt}, 1))  # every default taken at once
         return out
     raise AssertionError(kd)
 
